@@ -12,7 +12,9 @@ Proved here, from the writes-only theorem of the engine (`HexProofs/Writes/Engin
       of `a` are the same whatever other members are registered next to it, in whatever order, under any program of
       `calculate / calculate_index / purge / recalculate / append` – provided `a`'s tree neither writes under nor
       can read a name of the other members (distinct names, no input dependency).  Proof: both Hexitals are in
-      step with the same standalone twin (`member_twin`, built on the read-set locality of all 28 kinds).
+      step with the same standalone twin (`member_twin`, built on the read-set locality of all 28 kinds) – which,
+      since the constructor builds member managers from the candles as given (`source_candles`), is the PLAIN
+      standalone indicator with `a`'s own timeframe over the construction candles (`twinInit_of_key`).
       The programs may also add further members and remove other members.
   (d) `presence_late`: the same when `a` itself is added LATER by `add_indicator` (any number of times, at different
       points of the two programs, which may chunk the stream differently): for a member without its own timeframe,
